@@ -453,8 +453,29 @@ def m_pack(interp, fmt, *vals):
     return WBytes(parts)
 
 
-def m_join(sep_parts):
-    pass
+def m_str_join(interp, sep, it):
+    pieces = []
+    first = True
+    for x in interp.iterate(it):
+        if not first:
+            pieces.append(sep)
+        pieces.append(x)
+        first = False
+    if all(isinstance(p, str) for p in pieces):
+        return "".join(pieces)
+    return CatStr(pieces)
+
+
+def m_bytes_join(interp, sep, it):
+    trusted("bytes.join: concatenation in order; len(b''.join(xs)) = sum(len(x))")
+    parts = []
+    first = True
+    for x in interp.iterate(it):
+        if not first and len(sep):
+            parts.extend(as_wbytes(sep).parts)
+        parts.extend(as_wbytes(x).parts)
+        first = False
+    return WBytes(parts)
 
 
 # --------------------------------------------------------------------------- builtins
@@ -645,7 +666,7 @@ class DistinctList(object):
 
 def m_set(interp, it=()):
     xs = list(interp.iterate(it))
-    if not any(is_sym(x) or isinstance(x, SymStr) for x in xs):
+    if not any(is_sym(x) or isinstance(x, (SymStr, CatStr)) for x in xs):
         return set(xs)
     out = []
     for x in xs:
@@ -738,7 +759,7 @@ def m_abs(interp, x):
 
 
 def m_str(interp, *a):
-    if a and isinstance(a[0], SymStr):
+    if a and isinstance(a[0], (SymStr, CatStr)):
         return a[0]
     from .interp import Obj
     if a and isinstance(a[0], Obj):
@@ -797,6 +818,109 @@ class SymStr(object):
 
     def hashv(self):
         return sym._lift(z3.Function("strhash", z3.IntSort(), z3.IntSort())(_z(self.ident)))
+
+    def __add__(self, o):
+        if isinstance(o, (str, SymStr, CatStr)):
+            return CatStr([self, o])
+        return NotImplemented
+
+    def __radd__(self, o):
+        if isinstance(o, (str, SymStr, CatStr)):
+            return CatStr([o, self])
+        return NotImplemented
+
+    def replace(self, old, new):
+        if old == "'" and new == "''":
+            trusted("str.replace(\"'\", \"''\"): quote doubling esc(s), a function of s (characterised "
+                    "pointwise in harness path_roundtrip)")
+            return SymStr(sym._lift(z3.Function("esc", z3.IntSort(), z3.IntSort())(_z(self.ident))), "esc")
+        raise Unsupported("str.replace%r on a symbolic string" % ((old, new),))
+
+    def encode(self, encoding="utf-8", errors="strict"):
+        """str.encode('utf-8'): an opaque byte string determined by the text; its length is utf8len(text)"""
+        trusted("str.encode('utf-8'): bytes are a function of the text, length utf8len(text) >= 0; "
+                "bytes.decode is its inverse")
+        st = sym.get_state()
+        ln = sym._lift(z3.Function("utf8len", z3.IntSort(), z3.IntSort())(_z(self.ident)))
+        if st is not None:
+            st.assume(ln >= 0)
+        return WBytes([('opaque', 'utf8', ln, self.ident)])
+
+
+class CatStr(object):
+    """concatenation of concrete strings and atoms (object paths built by the writer):
+    pieces = list of str | SymStr.  Equality is piecewise on equal shapes and False on different shapes
+    (sound for the path encoder because enc is injective: property C16, harness path_roundtrip)."""
+
+    def __init__(self, pieces):
+        out = []
+        for p in pieces:
+            if isinstance(p, CatStr):
+                out.extend(p.pieces)
+            elif isinstance(p, str) and out and isinstance(out[-1], str):
+                out[-1] = out[-1] + p
+            elif isinstance(p, str) and p == "":
+                continue
+            else:
+                out.append(p)
+        self.pieces = out
+
+    def __add__(self, o):
+        if isinstance(o, (str, SymStr, CatStr)):
+            return CatStr(self.pieces + [o])
+        return NotImplemented
+
+    def __radd__(self, o):
+        if isinstance(o, (str, SymStr, CatStr)):
+            return CatStr([o] + self.pieces)
+        return NotImplemented
+
+    def __hash__(self):
+        return id(self)
+
+    def shape(self):
+        return tuple(p if isinstance(p, str) else None for p in self.pieces)
+
+    def __eq__(self, o):
+        if isinstance(o, str):
+            o = CatStr([o])
+        if not isinstance(o, CatStr):
+            return False
+        if self.shape() != o.shape():
+            return False
+        r = True
+        for a, b in zip(self.pieces, o.pieces):
+            if not isinstance(a, str):
+                r = sym_and(r, a == b)
+        return r
+
+    def __ne__(self, o):
+        return sym_not(self.__eq__(o))
+
+    def encode(self, encoding="utf-8", errors="strict"):
+        parts = []
+        for p in self.pieces:
+            if isinstance(p, str):
+                b = p.encode("utf-8")
+                if b:
+                    parts.append(('raw', b))
+            else:
+                parts.extend(p.encode("utf-8").parts)
+        # one opaque blob (a path is written as one string): keep pieces as payload
+        ln = 0
+        for q in parts:
+            ln = ln + (len(q[1]) if q[0] == 'raw' else q[2])
+        return WBytes([('opaque', 'utf8cat', ln, self)])
+
+    def __repr__(self):
+        return "CatStr(%r)" % (self.pieces,)
+
+    def __str__(self):
+        return self          # str(x) of a str is x (handled by m_str)
+
+
+def _symstr_add(a, b):
+    return CatStr([a, b])
 
 
 _STR_IDS = {}
